@@ -226,6 +226,10 @@ func (g *FuncGen) oblig(kind, label, expr string, p token.Pos, props []string, s
 	if g.c != nil && g.c.NoSafety && isSafetyKind(kind) {
 		return nil
 	}
+	if g.c != nil && g.c.Opts["noframe"] != "" && (kind == "frame" || kind == "loop-frame") {
+		// restriction-only contracts (e.g. queued_only) do not state a frame
+		return nil
+	}
 	g.oblN[kind]++
 	name := fmt.Sprintf("%s/%s#%d", g.key, kind, g.oblN[kind])
 	if label != "" {
@@ -706,6 +710,13 @@ func (g *FuncGen) run() {
 		if _, ok := fn.Params[0].Type().Underlying().(*types.Pointer); ok {
 			g.assume(fmt.Sprintf("(not (= %s 0))", g.vals[fn.Params[0]]))
 		}
+	}
+	if g.c != nil && g.c.Opts["count_sends"] != "" {
+		// the ghost send counter starts at zero
+		key := "cell:ghost:sends"
+		g.cellSort[key] = "Int"
+		g.cellType[key] = types.Typ[types.Int]
+		g.update(key, "0")
 	}
 	g.entry = g.st.clone()
 	// requires
